@@ -7,6 +7,7 @@ import (
 	"fmt"
 	"go/token"
 	"go/types"
+	"os"
 	"strings"
 
 	"golang.org/x/tools/go/ssa"
@@ -100,6 +101,9 @@ func checkC06(c *Ctx) Meta {
 					for _, e := range phi.Edges {
 						if _, isK := e.(*ssa.Const); isK {
 							badOp = "a constant restart value"
+							if os.Getenv("VERIF_DEBUG") != "" {
+								fmt.Printf("DEBUG const phi %s in %s at %s: %v\n", phi.Name(), phi.Parent().Name(), c.Pos(phi.Pos()), phi.String())
+							}
 						}
 					}
 				}
@@ -282,7 +286,7 @@ func checkIndexRecording(c *Ctx, f *ssa.Function, rule, label string) {
 	key := label + ":recorded-path-is-derivation-path"
 	// Child calls: first level (branch) and second level (index)
 	var branchChild, indexChild []*ssa.Call
-	for _, cl := range callsIn(f, "(*"+pkgHD+".ExtendedKey).Child") {
+	for _, cl := range callsInBody(f, "(*"+pkgHD+".ExtendedKey).Child") { // also in a helper the reference does not know
 		if backSlice(callRecv(cl)).hasCallTo("(*" + pkgHD + ".ExtendedKey).Child") {
 			indexChild = append(indexChild, cl)
 		} else {
@@ -329,8 +333,12 @@ func checkIndexRecording(c *Ctx, f *ssa.Function, rule, label string) {
 			e1, ok1 := affine(is.Val)
 			for _, cand := range indexChild {
 				e2, ok2 := affine(callArgs(cand)[0])
-				if ok1 && ok2 && affineEqualModuloLoopStep(f, e1, e2) && (cand.Block().Dominates(is.Block()) || cand.Block() == is.Block()) {
-					if ic == nil || ic.Block().Dominates(cand.Block()) {
+				cs := siteIn(f, cand)
+				if cs == nil {
+					continue
+				}
+				if ok1 && ok2 && affineEqualModuloLoopStep(f, e1, e2) && (cs.Block().Dominates(is.Block()) || cs.Block() == is.Block()) {
+					if ic == nil || siteIn(f, ic).Block().Dominates(cs.Block()) {
 						ic = cand // the nearest dominating one
 					}
 				}
@@ -499,10 +507,18 @@ func checkC05(c *Ctx) Meta {
 		}
 		key := name + ":address-from-requested-key-and-callers-digest"
 		sp := callsIn(f, "(*"+tAddrMgr+").signPocec")
-		gm := callsIn(f, "(*"+tKMC+").getAddrManager")
+		// the lookup may sit in a helper the reference tree does not have (summary.go)
+		gmLocs := findSteps(f, func(cl *ssa.Call) bool { return isCall(cl, "(*"+tKMC+").getAddrManager") }, 2)
+		var gm []*ssa.Call
+		for _, l := range gmLocs {
+			gm = append(gm, l.Step)
+		}
 		ok := len(sp) == 1 && len(gm) == 1
 		why := "anchor calls missing"
 		if ok {
+			if viaOK, viaWhy := stepFailsVia(gmLocs[0]); !viaOK {
+				c.Bad("C05-GATE", name+":unknown-key-fails-first", c.Pos(gm[0].Pos()), "an unknown key does not fail the lookup helper: "+viaWhy)
+			}
 			as := backSlice(sp[0].Call.Args[2])
 			gs := backSlice(gm[0].Call.Args[1])
 			okAddr := as.hasCallTo(pkgKeystore+".newPoCAddress") && as.hasParam(f, "pubKey") && gs.hasCallTo(pkgKeystore+".newPoCAddress") && gs.hasParam(f, "pubKey")
@@ -518,7 +534,7 @@ func checkC05(c *Ctx) Meta {
 			ok = okAddr && okMgr && okDigest
 			why = fmt.Sprintf("address-from-pubKey=%v manager-is-the-one-found=%v digest-is-callers=%v", okAddr, okMgr, okDigest)
 			// unknown key fails before signing
-			if u, _ := unreachableWhenCut(f, errorEdgeCut(f, gm[0], false), []ssa.Instruction{sp[0]}); u && len(errResults(gm[0])) > 0 {
+			if u, _ := unreachableWhenCut(f, errorEdgeCut(f, gmLocs[0].Site, false), []ssa.Instruction{sp[0]}); u && len(errResults(gmLocs[0].Site)) > 0 {
 				c.OK("C05-GATE", name+":unknown-key-fails-first", c.Pos(gm[0].Pos()), "signPocec unreachable unless getAddrManager succeeded")
 			} else {
 				c.Bad("C05-GATE", name+":unknown-key-fails-first", c.Pos(gm[0].Pos()), "signing is attempted for a key the wallet does not own")
@@ -669,19 +685,20 @@ func branchPolarity(f *ssa.Function, recv ssa.Value) (bool, string) {
 	ext, inn := "0", "1"
 	// candidate definitions reaching recv with the block they were assigned in
 	type def struct {
-		val ssa.Value
-		blk *ssa.BasicBlock
+		val  ssa.Value
+		blk  *ssa.BasicBlock
+		join *ssa.BasicBlock // for phi edges: the block of the phi
 	}
 	var defs []def
 	if ld, ok := recv.(*ssa.UnOp); ok {
 		for _, st := range rdOf(f).loads[ld] {
 			s := st.(*ssa.Store)
-			defs = append(defs, def{s.Val, s.Block()})
+			defs = append(defs, def{s.Val, s.Block(), nil})
 		}
 	}
 	if phi, ok := recv.(*ssa.Phi); ok {
 		for i, e := range phi.Edges {
-			defs = append(defs, def{e, phi.Block().Preds[i]})
+			defs = append(defs, def{e, phi.Block().Preds[i], phi.Block()})
 		}
 	}
 	if len(defs) < 2 {
@@ -735,6 +752,17 @@ func branchPolarity(f *ssa.Function, recv ssa.Value) (bool, string) {
 		case eqEdge.Dominates(d.blk) || eqEdge == d.blk:
 			want = constv
 		case neEdge.Dominates(d.blk) || neEdge == d.blk:
+			if constv == ext {
+				want = inn
+			} else {
+				want = ext
+			}
+		case d.blk == t.If.Block() && d.join == eqEdge && eqEdge != neEdge:
+			// default-then-override: the value flows straight from the test to the join on the == edge
+			want = constv
+		case d.blk == t.If.Block() && d.join == neEdge && eqEdge != neEdge:
+			// default-then-override: `k := inKey; if branch == External { k = exKey }` — the default reaches the
+			// join straight from the test on the != edge
 			if constv == ext {
 				want = inn
 			} else {
@@ -869,7 +897,7 @@ func checkAddrIndex(c *Ctx) {
 // it belongs to (shared by C06-RMW and C05-BIND).
 func checkPersistOwnPath(c *Ctx, f *ssa.Function, rule string) {
 	// persisted under the address's own (branch,index)
-	puts := callsIn(f, pkgKeystore+".putEncryptedPubKey")
+	puts := callsInBody(f, pkgKeystore+".putEncryptedPubKey") // also in a helper the reference does not know (summary.go)
 	key := "nextAddresses:key-persisted-under-own-path"
 	ok := len(puts) == 1
 	if ok {
